@@ -151,6 +151,10 @@ class BytesShim(metaclass=_BytesMeta):
             if isinstance(x, SymInt):
                 x = x.concretise()
             return _bytes(x)
+        if getattr(x, "_sx_passthrough", False):
+            return x
+        if isinstance(x, SymHex):
+            raise TypeError("string argument without an encoding")
         if hasattr(x, "__bytes__") and not isinstance(x, (SymBytes, _bytes, _bytearray)):
             r = x.__bytes__()
             if isinstance(r, SymBytes):
@@ -163,7 +167,12 @@ class BytesShim(metaclass=_BytesMeta):
             return _bytes(els)
         return SymBytes(els)
 
-    fromhex = staticmethod(_bytes.fromhex)
+    @staticmethod
+    def fromhex(s):
+        if isinstance(s, SymHex):
+            return s.sb if not s.sb.is_concrete() else _bytes(s.sb.e)
+        return _bytes.fromhex(s)
+
     maketrans = staticmethod(_bytes.maketrans)
 
     @staticmethod
